@@ -577,7 +577,7 @@ func catalogue() []cell {
 // "i18n:<default language>:<language this execution asks for>[:<custom language key>]"
 // "i18nalt:..." installs other texts for the same languages (every template ends in " [v2]").
 var fmtConfigs = []string{"default", "i18n:en:", "i18n:en:es", "i18n:en:en", "i18n:es:", "i18n:en:xx", "i18n:es:xx", "custom", "i18n:en:es:locale", "i18n:es:en:locale",
-	"i18nalt:en:", "i18nalt:en:es", "i18nalt:es:en", "i18nalt:es:xx"}
+	"i18nalt:en:", "i18nalt:en:es", "i18nalt:es:en", "i18nalt:es:xx", "i18n:en::locale", "i18n:es::locale"}
 
 var altLangMaps = func() map[string]zconst.LangMap {
 	out := map[string]zconst.LangMap{}
@@ -698,8 +698,8 @@ func genC11(r *Rng, tier string) *World {
 				key := "lang"
 				if len(parts) > 3 {
 					key = parts[3]
-					// the default key must then be ignored
-					op.Opts = append(op.Opts, OptSpec{K: "ctx", Key: "lang", Val: VS("xx")})
+					// the default key must then be ignored, whatever an application keeps under it
+					op.Opts = append(op.Opts, OptSpec{K: "ctx", Key: "lang", Val: Pick(r, []Val{VS("xx"), VS("es"), VS("en"), VI(42)})})
 				}
 				if l := parts[2]; l != "" {
 					op.Opts = append(op.Opts, OptSpec{K: "ctx", Key: key, Val: VS(l)})
